@@ -414,6 +414,7 @@ type fx struct {
 	tables     map[Term]*tableInfo
 	candActive map[CandKey]bool
 	candFail   map[CandKey]bool
+	commaOk    map[Term]Term // pointer results of comma-ok type assertions -> their ok flag
 	strFrom    map[Term]strOrigin // strings produced by string(bytes): the byte memory and address they were copied from
 }
 
